@@ -55,7 +55,7 @@ def query(ir):
         lines.append(f"o{i} = {o['cls']}(a={o['a']}, b={o['b']}, name={o['name']!r}, tags={o['tags']}, kids={['o%d' % k for k in o['kids']]}, "
                      f"friend={'None' if o['friend'] is None else 'o%d' % o['friend']}, props={o['props']}, val={o['val']})")
     for i, v in enumerate(ir["vars"]):
-        dom = "[" + ",".join("noise" if j < 0 else f"o{j}" for j in v["dom"]) + "]"
+        dom = repr(v["dom"]) if v.get("plain") else "[" + ",".join("noise" if j < 0 else f"o{j}" for j in v["dom"]) + "]"
         s = f"v{i} = let({v['type']}, {'gen' if v.get('gen') else ''}{dom})"
         if v.get("sub"):
             s += f"  ->  v{i} = {v['sub']['quant']}(entity(v{i}, {cond(v['sub']['cond'])}))"
